@@ -12,6 +12,7 @@
 #else
 #define HOOKS_OK(h)     (HOOKS_CUSTOM(h) || HOOKS_LIBC(h))
 #endif
+#define HOOKS_EQ(a, b) ((a).allocate == (b).allocate && (a).deallocate == (b).deallocate && (a).reallocate == (b).reallocate)
 /* C14: with custom hooks installed the libc allocator names are never called */
 #define C14_POST(h)     (HOOKS_CUSTOM(h) ==> g_libc_calls == __CPROVER_old(g_libc_calls))
 
